@@ -78,7 +78,7 @@ class AbstractVerdict:
                 dim = abstract.KindDim(False)  # the execution mode is not a comparison the property lets us read
             else:
                 dim = abstract.AddrFieldDim(dim_name, abstract.addr_values(p, dim_name))
-            ex, ci, _ = self.solver.exact_sets(dim)
+            _, _, ex, ci, _ = self.solver.bracket_sets(dim)
             self._sets[dim_name] = (ex, ci)
         ex, ci = self._sets[dim_name]
         return {b: (ci[b] if b in self.multi else ex[b]) for b in ex}
